@@ -1,4 +1,4 @@
 SPECIFICATION Spec
 CONSTANT Alg = "snappy"
-INVARIANTS RefAgrees CorruptRejected Emit
+INVARIANTS RefAgrees CorruptRejected HugeRejected Emit
 CHECK_DEADLOCK FALSE
